@@ -285,6 +285,34 @@ def opEscSets (impl : String) : Result :=
      | _ => true)
   { model := some model, fails := if bad then ["C07 json-escape-table-misses-a-mandatory-escape"] else [] }
 
+/-- alias <fmt> <target> <cache> <gc> <mode> <chunks doc1> <chunks doc2>   (C15)
+The model's observation: a document the parser mirror accepts is stored and STAYS stored
+(`same`); the ownership discipline that makes this true for every history is
+`SF.Props.C15.owned_store_stable`.  Oracle: the implementation never reports `changed`. -/
+def opAlias (args : List String) (impl : String) : Result :=
+  match args with
+  | [fmt, _target, _cache, _gc, _mode, cs1, _cs2] =>
+    match codecOf fmt, parseChunks cs1 with
+    | some c, some chunks =>
+      let pv := (c.parseEvents [chunks.flatten]).2
+      let model := if pv == "ok" then "same" else "err"
+      let fails :=
+        if impl.startsWith "changed" then
+          [s!"C15 {fmt}-stored-value-changed-by-buffer-reuse {(impl.splitOn ":").getD 1 ""}"]
+        else if isBad impl then [s!"C15 {fmt}-unfold-{impl}"] else []
+      { model := some model, fails := fails }
+    | _, _ => noModel
+  | _ => noModel
+
+/-- aliasrec <fmt> <mode> <chunks>: a Visitor that keeps every by-value string it is given -/
+def opAliasRec (args : List String) (impl : String) : Result :=
+  match args with
+  | [fmt, _mode, _cs] =>
+    { model := some "same",
+      fails := if impl.startsWith "changed" then [s!"C15 {fmt}-by-value-string-aliases-a-transient-buffer {impl}"]
+               else if isBad impl then [s!"C15 {fmt}-parser-{impl}"] else [] }
+  | _ => noModel
+
 def runLine (op : String) (impl : String) : Result :=
   match op.splitOn " " with
   | "escsets" :: _ => opEscSets impl
@@ -310,6 +338,8 @@ def runLine (op : String) (impl : String) : Result :=
   | "unf-type" :: args => opUnfType args impl
   | "unf-seq" :: args => opUnfSeq args impl
   | "fu" :: args => opFu args impl
+  | "alias" :: args => opAlias args impl
+  | "aliasrec" :: args => opAliasRec args impl
   | "unfx" :: args => opUnfWhatIf args impl
   | "unfc" :: args => opUnfClaim args impl
   | _ => { model := none }
